@@ -25,6 +25,9 @@
 #include <nano/tensor/stream.h>
 #include <nano/tuner.h>
 #include <nano/wlearner.h>
+#include <nano/wlearner/dtree.h>
+#include <nano/wlearner/single.h>
+#include <nano/wlearner/table.h>
 
 #include <cfloat>
 #include <new>
@@ -317,6 +320,71 @@ inline std::vector<region_t> locate_regions(const bytes_t& s, const std::vector<
     return regions;
 }
 
+// mechanism predicate of the open checksum-collision finding: an accepted alteration is explained by a collision
+// only when the LIBRARY's content hash (nano::detail::hash, recomputed here on both payloads) of the altered
+// content provably equals that of the original content (and equals the stored hash), and the harness-side
+// restatement of the documented hash agrees.  Anything else that is accepted silently stays a violation.
+template <class T>
+uint64_t library_hash_as(const unsigned char* p, size_t count)
+{
+    std::vector<T> values(count);
+    if (count > 0)
+    {
+        std::memcpy(values.data(), p, count * sizeof(T));
+    }
+    return ::nano::detail::hash(values.data(), static_cast<nano::tensor_size_t>(count));
+}
+
+// variant 0: unsigned integers, 1: signed integers, 2: floating point (4 and 8 bytes)
+inline bool library_hash(const unsigned char* p, size_t count, size_t esize, int variant, uint64_t& h)
+{
+    switch (variant * 10 + static_cast<int>(esize))
+    {
+    case 1: h = library_hash_as<uint8_t>(p, count); return true;
+    case 2: h = library_hash_as<uint16_t>(p, count); return true;
+    case 4: h = library_hash_as<uint32_t>(p, count); return true;
+    case 8: h = library_hash_as<uint64_t>(p, count); return true;
+    case 11: h = library_hash_as<int8_t>(p, count); return true;
+    case 12: h = library_hash_as<int16_t>(p, count); return true;
+    case 14: h = library_hash_as<int32_t>(p, count); return true;
+    case 18: h = library_hash_as<int64_t>(p, count); return true;
+    case 24: h = library_hash_as<float>(p, count); return true;
+    case 28: h = library_hash_as<double>(p, count); return true;
+    default: return false;
+    }
+}
+
+// `original` holds a tensor at `region`; `altered` is the same stream after an alteration of that tensor
+inline bool provable_hash_collision(const bytes_t& original, const region_t& region, const bytes_t& altered)
+{
+    region_t now;
+    if (!parse_region(altered, region.begin, false, now) || now.esize != region.esize)
+    {
+        return false; // the altered image is not even a well formed tensor (negative extents, other element size, ...)
+    }
+    const auto  stored = load<uint64_t>(original, region.begin + 12 + 4 * region.dims.size());
+    const auto* p0     = reinterpret_cast<const unsigned char*>(original.data()) + region.payload_begin();
+    const auto* p1     = reinterpret_cast<const unsigned char*>(altered.data()) + now.payload_begin();
+    if (now.count == region.count && std::memcmp(p0, p1, region.payload_len) == 0)
+    {
+        return false; // same content: nothing was altered in the elements
+    }
+    for (int variant = 0; variant < 3; ++variant)
+    {
+        uint64_t h0 = 0, h1 = 0;
+        if (!library_hash(p0, region.count, region.esize, variant, h0) || h0 != stored || !library_hash(p1, now.count, now.esize, variant, h1))
+        {
+            continue;
+        }
+        const bool sign = variant == 1;
+        if (h1 == h0 && ref_hash(p0, region.count, region.esize, sign) == ref_hash(p1, now.count, now.esize, sign))
+        {
+            return true;
+        }
+    }
+    return false;
+}
+
 // ---------------------------------------------------------------------------------------
 // subjects
 // ---------------------------------------------------------------------------------------
@@ -485,6 +553,64 @@ subject_t factory_subject(std::string family, std::string label, const std::uniq
                 }
             });
     };
+    return s;
+}
+
+// standalone tensor through the free functions; prefill != 0: the target already holds other data of another shape
+template <class T, size_t R>
+subject_t tensor_subject(const nano::tensor_mem_t<T, R>& original, int prefill, std::string label)
+{
+    using tensor_type  = nano::tensor_mem_t<T, R>;
+    const auto observe = [](const tensor_type& t) { return tensor_bits(t); };
+
+    subject_t s;
+    s.family        = "tensor";
+    s.label         = std::move(label);
+    s.bytes         = image_of(original);
+    s.state         = observe(original);
+    s.images        = {s.bytes};
+    s.free_function = true;
+
+    const auto make_reader = [observe](int fill) -> reader_t
+    {
+        return [observe, fill](const char* p, size_t n, bool want_state)
+        {
+            return guarded(
+                [&](outcome_t& o)
+                {
+                    tensor_type t;
+                    if (fill != 0)
+                    {
+                        nano::tensor_dims_t<R> other;
+                        for (size_t i = 0; i < R; ++i)
+                        {
+                            other[i] = fill == 1 ? 2 : static_cast<nano::tensor_size_t>(1 + i % 2);
+                        }
+                        t.resize(other);
+                        std::memset(t.data(), 0x5a, static_cast<size_t>(t.size()) * sizeof(T));
+                    }
+                    view_buf_t   buf(p, n);
+                    std::istream in(&buf);
+                    if (!::nano::read(in, t) || !in)
+                    {
+                        o.failed = true;
+                        o.how    = 1;
+                        return;
+                    }
+                    o.consumed  = static_cast<long>(in.tellg());
+                    o.rewritten = image_of(t);
+                    if (want_state)
+                    {
+                        o.state = observe(t);
+                    }
+                });
+        };
+    };
+    s.read = make_reader(prefill);
+    if (prefill != 0)
+    {
+        s.read_pristine = make_reader(0);
+    }
     return s;
 }
 
@@ -1014,8 +1140,161 @@ inline int randomize(nano::configurable_t& object, const std::vector<double>& u)
 }
 
 // ---------------------------------------------------------------------------------------
+// subjects of the learners (shared with the libFuzzer target)
+// ---------------------------------------------------------------------------------------
+template <class tbase>
+std::string pick_id(int index)
+{
+    const auto ids = tbase::all().ids();
+    return ids[static_cast<size_t>(index) % ids.size()];
+}
+
+inline std::vector<bytes_t> images_of(const nano::wlearner_t& w)
+{
+    std::vector<bytes_t> r;
+    if (const auto* single = dynamic_cast<const nano::single_feature_wlearner_t*>(&w); single != nullptr)
+    {
+        r.push_back(image_of(single->tables()));
+    }
+    if (const auto* table = dynamic_cast<const nano::table_wlearner_t*>(&w); table != nullptr)
+    {
+        r.push_back(image_of(table->hashes()));
+        r.push_back(image_of(table->hash2tables()));
+    }
+    if (const auto* dtree = dynamic_cast<const nano::dtree_wlearner_t*>(&w); dtree != nullptr)
+    {
+        r.push_back(image_of(dtree->tables()));
+        r.push_back(image_of(dtree->features()));
+    }
+    return r;
+}
+
+inline std::vector<bytes_t> images_of(const nano::gboost_model_t& m)
+{
+    std::vector<bytes_t> r = {image_of(m.bias())};
+    for (const auto* list : {&m.wlearners(), &m.prototypes()})
+    {
+        for (const auto& w : *list)
+        {
+            for (auto& image : images_of(*w))
+            {
+                r.push_back(std::move(image));
+            }
+        }
+    }
+    return r;
+}
+
+inline std::string dtree_nodes(const nano::wlearner_t& w)
+{
+    std::string r;
+    if (const auto* dtree = dynamic_cast<const nano::dtree_wlearner_t*>(&w); dtree != nullptr)
+    {
+        r += cat(" nodes=", dtree->nodes().size(), ":");
+        for (const auto& node : dtree->nodes())
+        {
+            r += cat(node.m_feature, "/", dbits(node.m_threshold), "/", node.m_next, "/", node.m_table, ";");
+        }
+    }
+    return r;
+}
+
+// weak learner subject (member API); `data` may be null (unfitted object);
+// reuse: the stream is read into a copy of the (fitted) object instead of a pristine one
+inline subject_t wlearner_subject(const nano::wlearner_t& w, const data_t* data, bool with_predictions, bool reuse = false)
+{
+    const auto id      = w.type_id();
+    const auto observe = [data, with_predictions](const nano::wlearner_t& x) { return observe_wlearner(x, with_predictions ? data : nullptr) + dtree_nodes(x); };
+    auto       s       = member_subject<nano::wlearner_t>("wlearner", cat("wlearner ", id), w, [id] { return nano::wlearner_t::all().get(id); }, observe);
+    if (reuse)
+    {
+        const std::shared_ptr<nano::wlearner_t> keep = w.clone();
+        auto r = member_subject<nano::wlearner_t>("wlearner", cat("wlearner ", id, " (read into a fitted object)"), w, [keep] { return keep->clone(); }, observe);
+        r.read_pristine = s.read;
+        s               = std::move(r);
+    }
+    s.images = images_of(w);
+    return s;
+}
+
+inline subject_t linear_subject(const nano::linear_t& m, const data_t* data, bool reuse = false)
+{
+    const auto id      = m.type_id();
+    const auto observe = [data](const nano::linear_t& x) { return observe_linear(x, data); };
+    auto       s       = member_subject<nano::linear_t>("linear", cat("linear ", id), m, [id] { return nano::linear_t::all().get(id); }, observe);
+    if (reuse)
+    {
+        const std::shared_ptr<nano::linear_t> keep = m.clone();
+        auto r = member_subject<nano::linear_t>("linear", cat("linear ", id, " (read into a fitted object)"), m, [keep] { return keep->clone(); }, observe);
+        r.read_pristine = s.read;
+        s               = std::move(r);
+    }
+    s.images = {image_of(m.bias()), image_of(m.weights())};
+    return s;
+}
+
+inline subject_t gboost_subject(const nano::gboost_model_t& m, const data_t* data, bool with_predictions, bool reuse = false)
+{
+    const auto observe = [data, with_predictions](const nano::gboost_model_t& x)
+    {
+        auto r = observe_gboost(x, with_predictions ? data : nullptr);
+        for (const auto& w : x.wlearners())
+        {
+            r += dtree_nodes(*w);
+        }
+        return r;
+    };
+    const auto label = cat("gboost model, ", m.wlearners().size(), " weak learners, ", m.prototypes().size(), " prototypes");
+    auto       s     = member_subject<nano::gboost_model_t>("gboost", label, m, [] { return std::make_unique<nano::gboost_model_t>(); }, observe);
+    if (reuse)
+    {
+        const auto keep = std::make_shared<nano::gboost_model_t>(m);
+        auto       r    = member_subject<nano::gboost_model_t>("gboost", label + " (read into a fitted object)", m, [keep] { return std::make_unique<nano::gboost_model_t>(*keep); }, observe);
+        r.read_pristine = s.read;
+        s               = std::move(r);
+    }
+    s.images = images_of(m);
+    s.nested = static_cast<int>(m.wlearners().size() + m.prototypes().size());
+    return s;
+}
+
+inline nano::rwlearners_t make_prototypes(const std::vector<int>& protos, const std::vector<double>& u)
+{
+    nano::rwlearners_t r;
+    size_t             shift = 0;
+    for (const auto p : protos)
+    {
+        auto w = nano::wlearner_t::all().get(pick_id<nano::wlearner_t>(p));
+        // rotate the choices so that two prototypes of one kind get different parameters
+        std::vector<double> mine(u);
+        if (!mine.empty())
+        {
+            std::rotate(mine.begin(), mine.begin() + static_cast<long>(++shift % mine.size()), mine.end());
+        }
+        randomize(*w, mine);
+        r.push_back(std::move(w));
+    }
+    return r;
+}
+
+// ---------------------------------------------------------------------------------------
 // fault engine
 // ---------------------------------------------------------------------------------------
+constexpr int default_heavy_alternatives()
+{
+#if defined(__SANITIZE_ADDRESS__)
+    return 1;
+#elif defined(__has_feature)
+    #if __has_feature(address_sanitizer)
+    return 1;
+    #else
+    return -1;
+    #endif
+#else
+    return -1;
+#endif
+}
+
 struct fault_plan_t
 {
     bool     truncations{true};
@@ -1025,7 +1304,29 @@ struct fault_plan_t
     int      sampled{8};
     size_t   max_payload_positions{512};     // per region; first and last element always included
     uint64_t seed{1};
+    // alterations of the upper bytes of an extent make the reader allocate up to max_allocation_size_mb; cheap without a
+    // sanitizer (untouched virtual memory), very expensive under ASan (shadow poisoning): the asan flavour samples them
+    int heavy_alternatives{default_heavy_alternatives()};
 };
+
+// forking an ASan process costs tens of milliseconds (page tables of the shadow): the asan flavour confirms the
+// crash-after-bad_alloc mechanism a few times per process and skips the remaining occurrences (the plain flavour runs all)
+struct child_record_t
+{
+    long survived{0}, crashed{0};
+};
+
+inline child_record_t& child_record()
+{
+    static child_record_t record;
+    return record;
+}
+
+inline long& child_budget()
+{
+    static long budget = default_heavy_alternatives() >= 0 ? 3 : (1L << 40);
+    return budget;
+}
 
 struct fault_stats_t
 {
@@ -1221,11 +1522,8 @@ inline finding_t sweep(const subject_t& s, const fault_plan_t& plan, fault_stats
                     count(o, st);
                     if (!o.failed)
                     {
-                        // mechanism predicate of the checksum-collision finding: the documented hash of the altered
-                        // content equals the stored one (harness-side restatement, not the library's function)
-                        region_t r2;
-                        bool     match = false;
-                        parse_region(mutated, region.begin, false, r2, &match);
+                        // mechanism predicate of the checksum-collision finding (see provable_hash_collision)
+                        const bool match = provable_hash_collision(bytes, region, mutated);
                         const auto again = s.read(mutated.data(), n, true);
                         const auto msg   = cat(s.label, ": payload byte ", pos, " of the tensor at offset ", region.begin, " (dims ", dims_text(region),
                                                "element size ", region.esize, ") changed from ", static_cast<int>(old), " to ", static_cast<int>(alt), ": ",
@@ -1237,7 +1535,7 @@ inline finding_t sweep(const subject_t& s, const fault_plan_t& plan, fault_stats
                         st.collisions++;
                         if (known.kind == 0)
                         {
-                            known = {2, known_collision_sig(), msg + " [the documented content hash of the altered payload equals the stored hash]"};
+                            known = {2, known_collision_sig(), msg + " [nano::detail::hash of the altered payload equals that of the original payload]"};
                         }
                     }
                 }
@@ -1253,26 +1551,43 @@ inline finding_t sweep(const subject_t& s, const fault_plan_t& plan, fault_stats
                 const auto at  = region.begin + pos;
                 const auto old = static_cast<unsigned char>(bytes[at]);
                 alternatives(old, alts);
+                const bool heavy = pos >= 8 && pos < 8 + 4 * region.dims.size() && (pos - 8) % 4 >= 1;
+                if (heavy && plan.heavy_alternatives >= 0 && alts.size() > static_cast<size_t>(plan.heavy_alternatives))
+                {
+                    // lowest bit, sign/top bit, any other: rotating choice
+                    const auto any = alts[static_cast<size_t>(rng.below(alts.size()))];
+                    std::vector<unsigned char> few = {static_cast<unsigned char>(old ^ 0x01), static_cast<unsigned char>(old ^ 0x80), any};
+                    std::rotate(few.begin(), few.begin() + static_cast<long>(rng.below(2)), few.end()); // a single one: never the arbitrary value
+                    few.resize(std::min<size_t>(3, static_cast<size_t>(plan.heavy_alternatives)));
+                    alts = few;
+                }
                 for (const auto alt : alts)
                 {
                     mutated[at]  = static_cast<char>(alt);
                     if (s.read_pristine)
                     {
                         const auto pristine = s.read_pristine(mutated.data(), n, false);
-                        if (pristine.how == 3 && st.child_crashes > 0)
+                        if (pristine.how == 3 && child_record().crashed == 0 && child_record().survived >= 2)
+                        {
+                            // two children of this process survived this very situation and none died: the mechanism is absent
+                            // in this build, the remaining alterations of this kind run in-process like all others
+                        }
+                        else if (pristine.how == 3 && (st.child_crashes > 0 || child_budget() <= 0))
                         {
                             // already demonstrated for this stream: not executed again (each crash costs a process)
                             st.header_alterations++;
                             st.child_skipped++;
                             continue;
                         }
-                        if (pristine.how == 3)
+                        else if (pristine.how == 3)
                         {
                             // the allocation fails: the read into the non-empty object runs in a child process
                             st.header_alterations++;
                             st.child_runs++;
+                            child_budget()--;
                             count(pristine, st);
                             const int rc = run_in_child([&] { (void)s.read(mutated.data(), n, false); });
+                            (rc != 0 ? child_record().crashed : child_record().survived)++;
                             if (rc != 0)
                             {
                                 st.child_crashes++;
@@ -1299,9 +1614,8 @@ inline finding_t sweep(const subject_t& s, const fault_plan_t& plan, fault_stats
                             st.header_lenient++;
                             continue;
                         }
-                        region_t   r2;
-                        bool       match  = false;
-                        const bool parsed = parse_region(mutated, region.begin, false, r2, &match);
+                        const bool match  = provable_hash_collision(bytes, region, mutated);
+                        const bool parsed = true;
                         const auto again  = s.read(mutated.data(), n, true);
                         const auto msg    = cat(s.label, ": header byte ", pos, " of the tensor at offset ", region.begin, " (dims ", dims_text(region),
                                                 "element size ", region.esize, ") changed from ", static_cast<int>(old), " to ", static_cast<int>(alt), ": ",
@@ -1313,7 +1627,7 @@ inline finding_t sweep(const subject_t& s, const fault_plan_t& plan, fault_stats
                         st.collisions++;
                         if (known.kind == 0)
                         {
-                            known = {2, known_collision_sig(), msg + " [the documented content hash over the altered extent equals the stored hash]"};
+                            known = {2, known_collision_sig(), msg + " [nano::detail::hash over the altered extent equals that of the original payload]"};
                         }
                     }
                 }
